@@ -138,5 +138,9 @@ def run(repo: Repo, tier: str) -> Report:
     t = Taint(d.node, d.file, "tyx", AM_P, "ww", "nodata", summaries=summaries).run()
     report(DRIVER, d.file, t, {"zz": t.state.get("zz", V()), "lopts": t.state.get("lopts", V())})
     rep.floor("R-TAINT sinks", sum(1 for o in rep.obls if o.rule == "R-TAINT"), 18)
+    from ..rules import r_truthy
+    r_truthy(rep, repo, "WhittakerSmoother", "whits", ["nodata"], "0 is a legitimate nodata value (it is the one the test-suite uses); a truth test silently replaces or drops it")
+    r_truthy(rep, repo, "WhittakerSmoother", "whitsvc", ["nodata"], "0 is a legitimate nodata value (it is the one the test-suite uses); a truth test silently replaces or drops it")
+    r_truthy(rep, repo, "WhittakerSmoother", "whitswcv", ["nodata"], "0 is a legitimate nodata value (it is the one the test-suite uses); a truth test silently replaces or drops it")
     rep.floor("C02 obligations", len(rep.obls), 90)
     return rep
